@@ -296,6 +296,39 @@ func init() {
 							sub++
 						}
 					}
+					// the whole member-position table (value/pointer x plain/omitempty/string x only/first/
+					// last/middle member) for both widths: every cell has an opcode of its own
+					for _, kind := range gen.PositionKinds {
+						if kind.Name != "float32" && kind.Name != "float64" {
+							continue
+						}
+						for _, pt := range gen.PositionTypes(kind) {
+							for _, f := range []float64{nan(), inf(1), inf(-1)} {
+								v := reflect.New(pt.T).Elem()
+								for i := 0; i < v.NumField(); i++ {
+									fv := v.Field(i)
+									switch {
+									case i == pt.Member && fv.Kind() == reflect.Ptr:
+										fv.Set(reflect.New(fv.Type().Elem()))
+										fv.Elem().SetFloat(f)
+									case i == pt.Member:
+										fv.SetFloat(f)
+									case fv.Kind() == reflect.Int:
+										fv.SetInt(7)
+									case fv.Kind() == reflect.String:
+										fv.SetString("y")
+									}
+								}
+								if c.Cur(sub, "shapes=feature:val:nonfinite\n"+fmt.Sprintf("%v %v", pt.T, f)) {
+									must := "non-finite:" + kind.Name
+									c03Check(c, sub, v.Interface(), pt.T, "val:nonfinite", true, must, entries)
+									c03Check(c, sub, v.Addr().Interface(), reflect.PtrTo(pt.T), "val:nonfinite", true, must, entries[:4])
+									c.NonTrivial("nonfinite-pos", pt.T.String(), fmt.Sprint(f))
+								}
+								sub++
+							}
+						}
+					}
 					c.Sample(map[string]any{"family": "non-finite floats", "positions": sub})
 				default:
 					// json.Number strings: all strings of length k-1 over {0,1,-,+,.,e,E,x} (k-1 in 0..5)
